@@ -43,7 +43,7 @@ func vOffence(which int) []byte {
 // references. Streams 1 and 5 must be served exactly once each, stream 3 must
 // fail alone, and the connection must stay up.
 //
-//verif:harness prop=C09 unwind=64 timeout=600
+//verif:harness prop=C09,C08 unwind=64 timeout=600
 func VerifH_C09_isolate() {
 	scenario := vRange(0, 4)
 	max := uint32(8)
@@ -86,6 +86,14 @@ func VerifH_C09_isolate() {
 		// body, a WINDOW_UPDATE, its own cancellation, or a PRIORITY frame
 		late := vRange(0, 3)
 		sent := 0
+		// the slot may have become free in the meantime
+		freed := vBool()
+		if freed {
+			s.hold = false
+			s.gate <- struct{}{}
+			vSettle()
+			get()
+		}
 		switch late {
 		case 0:
 			s.send(vFrame(0x0, 0x1, 3, []byte("late")))
@@ -102,10 +110,12 @@ func VerifH_C09_isolate() {
 		vAssert(!r.goaway, "C09.isolate.frames-in-flight-for-a-refused-stream-are-not-a-connection-error")
 		inc, _ := vWindowUpdates(all, 0, "C09.isolate.conn")
 		vAssert(int64(1<<22)-int64(sent)+inc == int64(s.sc.currentWindow), "C09.isolate.refused-data-is-accounted-to-the-connection-window")
-		s.hold = false
-		s.gate <- struct{}{}
-		vSettle()
-		get()
+		if !freed {
+			s.hold = false
+			s.gate <- struct{}{}
+			vSettle()
+			get()
+		}
 	case 2: // body too large, DATA in flight after our RST_STREAM
 		s.sc.maxRequestBodySize = 4
 		s.send(vFrame(0x1, 0x5, 1, vReqBlock('1')))
